@@ -70,6 +70,41 @@ def str_sites(body):
     return out
 
 
+def str_boundary(fx):
+    """boundary proofs for every str slice / split_at of the three text parsers; list of dict(fn, path, inst, line, ok, want, why, loc)"""
+    h = fx.hirfn(f"<{TAG} as core::str::traits::FromStr>::from_str")
+    hp = fx.hirfn("dicom_core::header::parse_tag_part")
+    hs = fx.hirfn("dicom_core::dictionary::data_element::DataDictionary::parse_selector")
+    out = []
+    for name, hh in (("Tag::from_str", h), ("parse_tag_part", hp)):
+        fs = ensure_facts(hh["body"])
+        for i, (kind, base, detail, line) in enumerate(str_sites(hh["body"])):
+            ok = False
+            why = "no dominating proof"
+            if kind == "split_at":
+                ok = any(f[0] == "boundary" and f[1] == base and f[2] == detail and f[3] <= line for f in fs)
+                why = f"is_char_boundary({detail}) on `{base}`" if ok else f"no is_char_boundary({detail}) on `{base}` before the split"
+            elif kind == "slice:RangeFrom" and detail.get("start") == "1":
+                ok = any(f[0] == "starts_with" and f[1] == base and f[3] <= line for f in fs)
+                why = "starts_with(<ASCII char>) on the same string" if ok else "no starts_with(<ASCII char>) check before `&s[1..]`"
+            out.append({"fn": name, "path": hh["path"], "inst": f"{kind}#{i}", "line": line, "ok": ok, "want": "boundary proof before the cut", "why": why, "loc": f"{hh['loc']['f']}:{line}"})
+    sites = str_sites(hs["body"])
+    for i, (kind, base, detail, line) in enumerate(sites):
+        # the two cuts are at `split_i` (= part.find('[')) and at part.len()-1 under `part.ends_with(']')`
+        txt = json.dumps(detail)
+        uses_find = "split_i" in txt
+        uses_end = "part.len() Sub 1" in txt or "end" not in detail
+
+        def char_call(n, name, ch):
+            return any(H.kind(y) == "mcall" and y[3] == name and H.path_of(y[4]) == "part" and y[5] and H.lit(y[5][0]) == ("char", ch) for y in H.walk(n))
+        find_ok = any(H.kind(x) == "slet" and H.pat_bindings(x[2]) == ["split_i"] and x[3] is not None and char_call(x[3], "find", "[") and x[1] <= line for x in H.walk(hs["body"]))
+        guard_ok = any(H.kind(x) == "if" and char_call(x[2], "ends_with", "]") and any(y[1] == line for y in H.walk(x[3]) if H.kind(y) == "index") for x in H.walk(hs["body"]))
+        ok = base == "part" and uses_find and find_ok and guard_ok
+        out.append({"fn": "parse_selector", "path": hs["path"], "inst": f"{kind}#{i}", "line": line, "ok": ok, "want": "cuts only at find('[') and, under ends_with(']'), at len-1 (ASCII delimiters)",
+                    "why": {"detail": detail, "find": find_ok, "guard": guard_ok}, "loc": f"{hs['loc']['f']}:{line}"})
+    return out
+
+
 def run(chk, tier):
     fx = facts.load("W")
     chk.analysed["facts"] = fx.meta
@@ -113,36 +148,11 @@ def run(chk, tier):
 
     # ---------- rule 2
     chk.rule("str-boundary", "each str slice/split is preceded (same function, earlier line) by a boundary proof for that cut")
-    n_sites = 0
-    for name, hh in (("Tag::from_str", h), ("parse_tag_part", hp)):
-        fs = ensure_facts(hh["body"])
-        for i, (kind, base, detail, line) in enumerate(str_sites(hh["body"])):
-            n_sites += 1
-            ok = False
-            why = "no dominating proof"
-            if kind == "split_at":
-                ok = any(f[0] == "boundary" and f[1] == base and f[2] == detail and f[3] <= line for f in fs)
-                why = f"is_char_boundary({detail}) on `{base}`" if ok else f"no is_char_boundary({detail}) on `{base}` before the split"
-            elif kind == "slice:RangeFrom" and detail.get("start") == "1":
-                ok = any(f[0] == "starts_with" and f[1] == base and f[3] <= line for f in fs)
-                why = "starts_with(<ASCII char>) on the same string" if ok else "no starts_with(<ASCII char>) check before `&s[1..]`"
-            chk.expect(ok, "str-boundary", name, f"{kind}#{i}", "boundary proof before the cut", why, loc=f"{hh['loc']['f']}:{line}")
     hs = fx.hirfn("dicom_core::dictionary::data_element::DataDictionary::parse_selector")
-    sites = str_sites(hs["body"])
-    for i, (kind, base, detail, line) in enumerate(sites):
-        n_sites += 1
-        # the two cuts are at `split_i` (= part.find('[')) and at part.len()-1 under `part.ends_with(']')`
-        txt = json.dumps(detail)
-        uses_find = "split_i" in txt
-        uses_end = "part.len() Sub 1" in txt or "end" not in detail
-        def char_call(n, name, ch):
-            return any(H.kind(y) == "mcall" and y[3] == name and H.path_of(y[4]) == "part" and y[5] and H.lit(y[5][0]) == ("char", ch) for y in H.walk(n))
-        find_ok = any(H.kind(x) == "slet" and H.pat_bindings(x[2]) == ["split_i"] and x[3] is not None and char_call(x[3], "find", "[") and x[1] <= line for x in H.walk(hs["body"]))
-        guard_ok = any(H.kind(x) == "if" and char_call(x[2], "ends_with", "]") and any(y[1] == line for y in H.walk(x[3]) if H.kind(y) == "index") for x in H.walk(hs["body"]))
-        ok = base == "part" and uses_find and find_ok and guard_ok
-        chk.expect(ok, "str-boundary", "parse_selector", f"{kind}#{i}", "cuts only at find('[') and, under ends_with(']'), at len-1 (ASCII delimiters)",
-                   {"detail": detail, "find": find_ok, "guard": guard_ok}, loc=f"{hs['loc']['f']}:{line}")
-    chk.floor("str-boundary", "str slicing sites", n_sites, 6)
+    res = str_boundary(fx)
+    for r in res:
+        chk.expect(r["ok"], "str-boundary", r["fn"], r["inst"], r["want"], r["why"], loc=r["loc"])
+    chk.floor("str-boundary", "str slicing sites", len(res), 6)
 
     # ---------- rule 3
     chk.rule("print-parse", "printer templates: Tag `({:04X},{:04X})`, step `{tag}[{item}]`, selector steps joined by '.'; parsers consume the same delimiters; keyword via by_name")
